@@ -11,6 +11,7 @@ use std::cell::RefCell;
 use std::collections::BTreeMap;
 use std::io::Write;
 
+pub mod forms;
 pub mod track;
 
 /// SplitMix64: every random choice of a run derives from one state.
